@@ -370,6 +370,37 @@ theorem max_len (c : LocalCfg) (s : PeerState) (o : Open) (hd : Decoded o) (t : 
 example : recvMaxLen (stateChange default default { (default : Open) with params := [.caps [.extMsg]] }) .update = 65535 := by
   decide
 
+/-- **the limit is on the TOTAL length, header included, and it is inclusive**: a message whose
+    serialisation (19-octet header + body) is `total` octets long is written by the sender iff
+    `total` ≤ the session maximum of `max_len`, and that is exactly when the receive gate of the same
+    session would let it through; one octet more is neither emitted nor accepted.  A NOTIFICATION sent
+    by fsm.sendNotification is never longer than 4096 octets, extended message or not. -/
+theorem emitted_total_bounded (c : LocalCfg) (s : PeerState) (o : Open) (t : MsgType) (total : Nat)
+    (h : headerLen ≤ total) :
+    let s' := stateChange c s o
+    (sendWrites s' t total = total ↔ total ≤ sendMaxLen s' t) ∧
+    (sendWrites s' t total = 0 ↔ sendMaxLen s' t < total) ∧
+    (recvFits s' t total = true ↔ total ≤ recvMaxLen s' t) ∧
+    sendWrites s' t total ≤ sendMaxLen s' t ∧
+    (notifWrites total = total ↔ total ≤ 4096) ∧ notifWrites total ≤ 4096 := by
+  intro s'
+  unfold headerLen at h
+  have e : 19 + (total - 19) = total := by omega
+  have hlt : ¬ total < 19 := by omega
+  unfold sendWrites notifWrites serializeFits recvFits headerLen
+  rw [if_neg hlt, if_neg hlt, e]
+  have hsr : recvMaxLen s' t = sendMaxLen s' t := rfl
+  rw [hsr]
+  by_cases hm : total > sendMaxLen s' t <;> by_cases h4 : total > 4096 <;> simp [hm, h4] <;> omega
+
+example : sendWrites (stateChange default default default) .update 4096 = 4096 ∧
+    sendWrites (stateChange default default default) .update 4097 = 0 ∧
+    sendWrites (stateChange default default default) .update 4115 = 0 ∧
+    sendWrites (stateChange default default { (default : Open) with params := [.caps [.extMsg]] }) .update 65535 = 65535 ∧
+    sendWrites (stateChange default default { (default : Open) with params := [.caps [.extMsg]] }) .update 65536 = 0 ∧
+    sendWrites (stateChange default default { (default : Open) with params := [.caps [.extMsg]] }) .keepalive 4097 = 0 := by
+  decide
+
 /-- **messages are parsed and emitted under exactly the negotiated options** -/
 theorem codec_options (c : LocalCfg) (s : PeerState) (o : Open) :
     let s' := stateChange c s o
